@@ -165,13 +165,15 @@ func newSession(config *Config, conn net.Conn, isClient bool) (*Session, error) 
 		return nil, err
 	}
 
+	// the name is taken before the connection is handed to the event loop: from then on the session may be closed
+	// at any moment (e.g. the peer is already gone), which unmaps the queue and sets s.queueManager to nil.
+	s.mu.Lock()
+	s.name = s.queueManager.path
+	s.mu.Unlock()
 	s.eventConn = s.dispatcher.newConnection(fd)
 	if err := s.eventConn.setCallback(s); err != nil {
 		return nil, err
 	}
-	s.mu.Lock()
-	s.name = s.queueManager.path
-	s.mu.Unlock()
 	//currently, netConn only using for get remote address and local address.
 	//maybe it could be optimized in the future
 	go s.send()
